@@ -122,6 +122,9 @@ func (e *Env) Close() {
 type Corpus struct {
 	Targets []*Target
 	byName  map[string]*Target
+	// Broken is set when the code under test panicked on a valid sample while the corpus was
+	// checked (reported by every scenario of the process).
+	Broken *core.Violation
 
 	logger  *logging.Logger
 	rtID    common.Namespace
@@ -209,7 +212,17 @@ func buildCorpus() *Corpus {
 			var ok bool
 			pv, stack := core.Guard(func() { ok = t.Call(env, b) })
 			if pv != nil {
-				core.Harnessf("decode corpus: target %s panics on its valid sample %d: %v\n%s", t.Name, i, pv, stack)
+				if _, harness := pv.(*core.HarnessError); harness {
+					panic(pv)
+				}
+				// The code under test panics on a VALID encoding: that is a verdict, not harness
+				// trouble. Every scenario of this process reports it.
+				if c.Broken == nil {
+					site := core.PanicSite(stack, "oasis-core/go/")
+					c.Broken = &core.Violation{Property: "C16", Kind: "panic", Fingerprint: "panic " + t.Name + " at " + site,
+						Detail: fmt.Sprintf("target %s panicked on its VALID sample %d (%d bytes, no corruption applied): %v\n%s", t.Name, i, len(b), pv, stack)}
+				}
+				continue
 			}
 			if !ok {
 				core.Harnessf("decode corpus: target %s rejects its valid sample %d (%d bytes)", t.Name, i, len(b))
